@@ -142,10 +142,7 @@ fn ir_json(r: &Runtype) -> Value {
     }
 }
 
-fn main() {
-    let mut input = String::new();
-    std::io::stdin().read_to_string(&mut input).unwrap();
-    let job: Value = serde_json::from_str(&input).expect("job");
+fn once(job: &Value) -> Value {
     let files: Vec<(String, String)> = job["files"]
         .as_array()
         .unwrap()
@@ -161,16 +158,6 @@ fn main() {
     };
     let entry = job["entry"].as_str().unwrap_or("entry.ts").to_string();
     let lazy = job["lazy"].as_bool().unwrap_or(false);
-    panic::set_hook(Box::new(|info| {
-        let loc = info.location().map(|l| format!("{}:{}", l.file(), l.line())).unwrap_or_default();
-        let msg = info
-            .payload()
-            .downcast_ref::<String>()
-            .cloned()
-            .or_else(|| info.payload().downcast_ref::<&str>().map(|s| s.to_string()))
-            .unwrap_or_default();
-        eprintln!("@@PANIC {} {}", loc, msg.replace('\n', " "));
-    }));
     let result = panic::catch_unwind(move || {
         GLOBALS.set(&Globals::new(), || {
             let mut man = Manager {
@@ -235,7 +222,45 @@ fn main() {
         })
     });
     match result {
-        Ok(v) => println!("{}", v),
-        Err(_) => println!("{}", json!({"outcome": "panic"})),
+        Ok(v) => v,
+        Err(_) => json!({"outcome": "panic"}),
     }
+}
+
+fn main() {
+    let mut input = String::new();
+    std::io::stdin().read_to_string(&mut input).unwrap();
+    let job: Value = serde_json::from_str(&input).expect("job");
+    panic::set_hook(Box::new(|info| {
+        let loc = info.location().map(|l| format!("{}:{}", l.file(), l.line())).unwrap_or_default();
+        let msg = info
+            .payload()
+            .downcast_ref::<String>()
+            .cloned()
+            .or_else(|| info.payload().downcast_ref::<&str>().map(|s| s.to_string()))
+            .unwrap_or_default();
+        eprintln!("@@PANIC {} {}", loc, msg.replace('\n', " "));
+    }));
+    // "repeat": compile the same project several times in this one process (the last time on a new thread):
+    // the outputs must not depend on what the process compiled before
+    let repeat = job["repeat"].as_u64().unwrap_or(1).max(1);
+    let mut first = once(&job);
+    if repeat > 1 {
+        let key = |v: &Value| json!([v["outcome"], v["code"], v["diags"]]).to_string();
+        let k0 = key(&first);
+        let mut differs = Value::Null;
+        for i in 1..repeat {
+            let v = if i + 1 == repeat {
+                let j2 = job.clone();
+                std::thread::Builder::new().stack_size(64 * 1024 * 1024).spawn(move || once(&j2)).unwrap().join().unwrap_or(json!({"outcome": "panic"}))
+            } else {
+                once(&job)
+            };
+            if differs.is_null() && key(&v) != k0 {
+                differs = json!({"run": i, "outcome": v["outcome"], "code": v["code"], "diags": v["diags"]});
+            }
+        }
+        first["repeat_differs"] = differs;
+    }
+    println!("{}", first);
 }
